@@ -22,7 +22,9 @@ PROPS['C15'] = dict(level='model_checking',
   bounds='v1: 2 lockers + try_lock prober (T=3) and 3 lockers; v2: see harness list; K per harness',
   outside='more than 3 contending parties, seq_cst fence strength (SC model)',
   harnesses=[
-    H('v1_two_lockers_try', 'C15_mutex_v1.cpp', ['h_lock0', 'h_lock1', 'h_try'], 30, final='h_final2', desc='two async_lock + one try_lock/unlock'),
+    H('v1_two_lockers', 'C15_mutex_v1.cpp', ['h_lock0', 'h_lock1'], 24, final='h_final2', desc='two async_lock contending'),
+    H('v1_locker_vs_try', 'C15_mutex_v1.cpp', ['h_lock0', 'h_try'], 22, final='h_final1', desc='async_lock vs try_lock/unlock'),
+    H('v1_two_lockers_try', 'C15_mutex_v1.cpp', ['h_lock0', 'h_lock1', 'h_try'], 30, final='h_final2', tier='thorough', timeout=3000, desc='two async_lock + one try_lock/unlock'),
   ])
 
 PROPS['C16'] = dict(level='model_checking',
@@ -41,9 +43,19 @@ PROPS['C08'] = dict(level='model_checking',
     H('v2_nest_two_joins', 'C08_scope_v2.cpp', ['h_nest0', 'h_join0', 'h_join1'], 24, final='h_final12', tier='thorough', timeout=3000, desc='one nest racing two joins'),
   ])
 
-PROPS['C19'] = dict(level='model_checking',
+PROPS['C19_wip'] = dict(level='model_checking',
   bounds='T=2 (runner = start + natural completion, stopper), K per harness; symbolic completion channel',
   outside='create_basic_sender (recursive mutex + weak_ptr control blocks), more than one stopper',
   harnesses=[
     H('detach_stop_vs_complete', 'C19_detach.cpp', ['h_run', 'h_stop_check'], 30, desc='detach_on_cancel: natural completion racing a stop request; receiver frees the op'),
   ])
+
+def SEQ(name, src, fn, **kw):
+    return H(name, src, [], 0, setup=fn, final=None, **kw)
+PROPS['C05'] = dict(level='model_checking',
+  bounds='sequential (T=1) execution of each listed expression shape; leaf outcomes (value/error/done) and 8-bit payloads symbolic; depth<=2, <=3 children',
+  outside='expression shapes not in the catalogue; concurrent completion orders (see C01/C04 harnesses)',
+  harnesses=[SEQ('seq_' + n, 'C05_seq.cpp', 'h_' + n, desc=n + ' over symbolic leaf outcomes') for n in
+     ['then', 'upon_error', 'upon_done', 'let_value', 'let_error', 'let_done', 'sequence', 'finally', 'materialize', 'just']] +
+   [SEQ('throw_' + n, 'C05_throw.cpp', 'h_' + n, exc=True, desc=n + ': throwing callable at symbolic position') for n in
+     ['then_throw', 'let_value_throw', 'just_from_throw']])
